@@ -98,6 +98,7 @@ pub fn expand(
     let (impl_generics, ty_generics, where_clause) = generics.split_for_impl();
 
     let render = quote! {
+        #[allow(deprecated)] // omit warnings on deprecated fields/variants
         #[automatically_derived]
         // TODO: Use `derive_more::core::error::Error` once `error_in_core` Rust feature is
         //       stabilized.
